@@ -156,6 +156,28 @@ const MANY_BLOCKS: [u32; 8] = [3, 100, 254, 255, 256, 257, 300, 1000];
 
 /// program pair; `int` > 0: a device requests one (edge-triggered, priority-4) interrupt at poll int-1 on both machines, serviced by an
 /// initialized ISR (push R0, clobber, pop, RTI): taking a device interrupt is not something strict mode may object to
+/// Internal registers mapped into the I/O page by the host (`mmap_internal`): supervisor-mode code loads from and stores to the mapped port.
+/// i = register (PC, PSR, MCR, saved SP) x value stored (addresses of never-written and of written words, PSR-like and extreme values) x form.
+const MAPPED_VALUES: [u16; 8] = [0x4000, 0x3005, 0x8002, 0x0000, 0xFFFF, 0x0002, 0xFE00, 0x2FFF];
+fn run_mapped(i: u64, full: bool) -> Result<(u64, u64), (String, String)> {
+    use lc3_ensemble::sim::InternalRegister as IR;
+    let (r, v, form) = (i % 4, MAPPED_VALUES[(i / 4 % 8) as usize], i / 32);
+    let port = 0xFE40u16;
+    let mut m = Machine::user();
+    m.psr = 0x0002; m.saved_sp = 0xF000; // supervisor mode, R6 is the supervisor stack pointer
+    m.regs = [v, port, 0x3100, 0x3101, 0, 0, 0x2FF0, 0x3002];
+    m.pokes.extend([(0x3005u16, 0x1021u16), (0x3006, 0x1021), (0x3100, port), (0x3101, v)]);
+    let name = match form {
+        0 => { m.pokes.extend([(0x3000u16, 0x7040u16), (0x3001, 0x1021), (0x3002, 0x6640)]); "STR R0,R1,#0 ; ADD ; LDR R3,R1,#0" }
+        1 => { m.pokes.extend([(0x3000u16, 0xB0FFu16), (0x3001, 0x1021), (0x3002, 0xA6FD)]); "STI R0,[x3100] ; ADD ; LDI R3,[x3100]" }
+        2 => { m.pokes.extend([(0x3000u16, 0x6640u16), (0x3001, 0x76C0)]); "LDR R3,R1,#0 ; STR R3,R3,#0" }
+        _ => return Err(("machinery:form".into(), "no such form".into())),
+    };
+    let mut t = build_two(&m, full);
+    let reg_ = [IR::PC, IR::PSR, IR::MCR, IR::SavedSP][r as usize];
+    for p in [&mut t.s, &mut t.n] { p.sim.mmap_internal(port, reg_).map_err(|e| ("machinery:mmap".to_string(), format!("{e:?}")))?; }
+    run_pair_built(t, 6, full, &format!("{name} with {reg_:?} mapped at x{port:04X} by the host, value x{v:04X}"))
+}
 fn run_program(len: usize, idx: u64, flags: u64, full: bool, int: u64) -> Result<(u64, u64), (String, String)> {
     let (mut m, words) = program_machine(len, idx, flags);
     if int == 0 { return run_pair(&m, 120, full, &format!("program {words:x?} flags {flags}")); }
@@ -220,6 +242,15 @@ pub fn run(ctx: &Ctx) -> Report {
         }
     });
     rep.absorb(r);
+    let r = sweep(ctx, 96 * 2, 4, |k, acc| {
+        let (i, full) = (k / 2, k % 2 == 1);
+        acc.evals += 1; acc.count("host_mapped_register_programs", 1);
+        match run_mapped(i, full) {
+            Ok((a, rj)) => { acc.transitions += 2 * a; acc.nontrivial += 1; if rj > 0 { acc.count("strict_rejections", 1); } }
+            Err((sig, d)) => acc.violation(sig, format!("x:{i}:{}", full as u8), d),
+        }
+    });
+    rep.absorb(r);
     let r = sweep(ctx, MANY_BLOCKS.len() as u64 * 2, 1, |k, acc| {
         let (n, full) = (MANY_BLOCKS[(k / 2) as usize], k % 2 == 1);
         acc.evals += 1; acc.count("many_block_objects", 1);
@@ -245,6 +276,7 @@ pub fn replay(case: &str) -> Option<String> {
         "p" => { let (m, words) = program_machine(n(1)? as usize, n(2)?, n(3)?); run_pair(&m, 120, n(4)? == 1, &format!("program {words:x?} flags {}", n(3)?)) }
         "t" => { let (m, what) = targeted(n(1)?)?; run_pair(&m, 6, n(2)? == 1, &what) }
         "l" => run_loaded(n(1)?, n(2)? == 1),
+        "x" => run_mapped(n(1)?, n(2)? == 1),
         "m" => run_many_blocks(n(1)? as u32, n(2)? == 1),
         _ => return None,
     };
